@@ -149,6 +149,7 @@ theorem def_core (hP : P.length < 65536)
     (c c' : CState) (slot : JSlot) (sc : Scope) (rs : List Scope) (pool : List KConst) (ps : List (List KConst))
     (n2 : Nat) (pos : Pos) (env env1 : Env) (s s1 : SS) (v : Value)
     (hs : c.scopes = sc :: rs) (hp : c.pools = pool :: ps) (hl : c.lim ≤ 240) (htop : sc.top = false)
+    (hm : w = true → c.map.length = c.buf.length)
     (hc : cDef (cValue fuel) x ve c = some (slot, c')) (hsem : eval n2 pos env ve s = .ok (v, env1) s1)
     (hE : EnvS G c.scopes env s.boxes.size sc.ra) :
     Correct2 p f0 rest V P G false c c' slot sc rs pool ps env ((x, s1.boxes.size) :: env1) s { s1 with boxes := s1.boxes.push v } v := by
@@ -158,7 +159,7 @@ theorem def_core (hP : P.length < 65536)
   obtain ⟨r, c1, hv, c2, hnl, hslot, hc2⟩ := hc
   subst hslot hc2
   obtain ⟨ra1, ns1, more1, seg1, segm1, hc1, pv1, mono1, max1, sok1, bx1, es1, nf1, vm1⟩ :=
-    IH ve {} c c1 r sc rs pool ps n2 pos env env1 s s1 v rfl rfl hs hp hl htop hTv hv hsem hE
+    IH ve {} c c1 r sc rs pool ps n2 pos env env1 s s1 v rfl rfl hs hp hl htop hm hTv hv hsem hE
   have hs1 : c1.scopes = { sc with ra := ra1, syms := sc.syms ++ ns1 } :: rs := by rw [hc1]
   have hp1 : c1.pools = (pool ++ more1) :: ps := by rw [hc1]
   have hl1 : c1.lim ≤ 240 := by rw [hc1]; exact hl
